@@ -547,6 +547,10 @@ class ResourceService:
         if req_id[0] == '.':
             return None
 
+        # The request was registered again since, this event is stale.
+        if os.path.lexists(filepath):
+            return None
+
         # TODO: We should also validate the req_id format
         with lc.LogContext(_LOGGER, req_id,
                            adapter_cls=lc.ContainerAdapter) as log:
